@@ -57,13 +57,18 @@ def numFields (tc : Nat) (fn : Bytes) (idx op mop : Nat) (val mask : Bytes) (dfl
 def strFields (fn : Bytes) (idx op : Nat) (val : Bytes) (dflt : Option Bytes) : List (Bytes × Field) :=
   valueHdr fn idx ++ [(kVal, .strs (rep12 dflt) (val :: dflt.toList))] ++ aInt8 kOp op
 
-/-- `AddData(name, B_RAW_TYPE, bytes, n)` guarded as in `RawDataQueryFilter::SaveToArchive`: both
-    the value (`numBytes > 0`) and the default (`bytes != NULL`, and a zero-length ByteBuffer has
-    a NULL buffer) are written only when non-empty -/
+/-- `AddData("val", B_RAW_TYPE, bytes, n)` guarded as in `RawDataQueryFilter::SaveToArchive`: the value is written
+    only when it is non-empty (`(bytes)&&(numBytes > 0)`) -/
 def rawOpt (k : Bytes) (b : Option Bytes) : List (Bytes × Field) :=
   match b with
   | none => []
   | some x => if x = [] then [] else [(k, .raws tcRaw .inl [x])]
+
+/-- `AddFlat("def", copy of the default ByteBuffer)`: every non-NULL default is written, a zero-length one too -/
+def rawAll (k : Bytes) (b : Option Bytes) : List (Bytes × Field) :=
+  match b with
+  | none => []
+  | some x => [(k, .raws tcRaw .inl [x])]
 
 /-- `CAddMessage(name, ref)`: nothing for a NULL reference -/
 def optMsg (k : Bytes) (d : Option Msg) : List (Bytes × Field) :=
@@ -83,7 +88,7 @@ def toArchive : Filter → Msg
   | .str fn idx op val dflt => .mk qfString (strFields fn idx op val dflt)
   | .nodeName fn idx op val dflt => .mk qfNodeName (strFields fn idx op val dflt)
   | .raw fn idx op tc val dflt =>
-      .mk qfRawData (valueHdr fn idx ++ aInt8 kOp op ++ cInt32 kType tc tcAny ++ rawOpt kVal val ++ rawOpt kDef dflt)
+      .mk qfRawData (valueHdr fn idx ++ aInt8 kOp op ++ cInt32 kType tc tcAny ++ rawOpt kVal val ++ rawAll kDef dflt)
   | .msgAny fn idx dflt =>
       .mk qfMessage (valueHdr fn idx ++ optMsg kDefmsg dflt)
   | .msgKid fn idx kid dflt =>
@@ -194,7 +199,7 @@ def fromArchiveF : Nat → Msg → Option Filter
       | some (fn, idx) =>
         match findInt8 kOp a with
         | none => none
-        | some op => some (.raw fn idx op (getInt32 kType tcAny a) (findData kVal tcRaw 0 a) (findData kDef tcRaw 0 a))
+        | some op => some (.raw fn idx op (getInt32 kType tcAny a) (findData kVal tcRaw 0 a) (findRawBuf kDef a))
     else if w = qfMessage then
       match fnIdx a with
       | none => none
